@@ -1549,6 +1549,6 @@ mod tests {
 
 // Verification harnesses (Kani); the sources live outside this repository.
 #[cfg(feature = "verif")]
-mod verif {
+pub(crate) mod verif {
     include!(concat!(env!("VHOST_VERIF_DIR"), "/harness/vu_message.rs"));
 }
